@@ -11,6 +11,42 @@ VERIF = os.path.dirname(os.path.dirname(os.path.abspath(__file__)))
 MC = "model_checking"
 
 CLAIMS = {
+    "C01": dict(
+        engine="NixArray",
+        technique="TLA+ spec NixArray (cell -> write-stamp map) checked by TLC + replay of every exported transition on a real DataArray under seeded concretisations (element type, values, compression, handles)",
+        text="NixArray models one n-d array as a map from cells to the write that last stored them; TLC checks ShapeOK, AppendPreserves, ResizePreserves, AssignFrame, RefusedUnchanged on every history of create / whole write / region assignment / append along any axis / resize (ranks 1-4, zero-length axes) and exports every transition; each is replayed with one of 12 element types, value pools with extremes / NaN / +-inf / -0.0 / empty and non-ASCII text, a file x block x array compression triple, through two long-lived handles and a fresh one, and again after reopen; every read path must return bit-exactly the value of each cell's stamp.",
+        note="Trusted: TLC; value equality is judged in the harness (the specification says which write a cell belongs to); bounded shapes (<= 12 cells) and depth; quick tier replays a seeded stride.",
+        design_ref="6/C01"),
+    "C06": dict(
+        engine="NixIndex",
+        technique="TLA+ spec NixIndex/NixIndexing (NumPy index-expression resolution from first principles) checked by TLC + every exported vector executed on nixio arrays and views and cross-checked against NumPy",
+        text="NixIndex enumerates (shape, optional view window, index expression) vectors; TLC checks InSpace, InWindow, ErrorOnlyFromInts, WholeWindow, Composition on each; every vector is evaluated three ways - specification, NumPy on an in-memory copy (must agree, else machinery failure), nixio read and (seeded share) assignment on DataArray and DataView; views are additionally read after every step of the NixArray histories (append / resize through another handle).",
+        note="Trusted: TLC; NumPy as the property's own oracle; ranks 1-4 with small extents; negative window starts and surplus indices on views are left open.",
+        design_ref="6/C06"),
+    "C08": dict(
+        engine="NixTagging",
+        technique="TLA+ spec NixTagging (region -> selected samples, declaratively, on top of NixDim and the SI unit table) checked by TLC + every exported vector executed through Tag, MultiTag and feature reads",
+        text="NixTagging enumerates referenced arrays (per dimension: sampled / range / set descriptor, stored extent, tag-unit x dimension-unit case) x tags (position on / between / outside samples, extent none / 0 / between / past the end, both stop rules, positions shorter than the rank); TLC checks ExactlyRegion, NoneMeansNone, ZeroIsPoint, RuleOnlyAtEnd, AgreesWithRangeIndices, BeyondIsWhole; each vector is executed through Tag.tagged_data, one row of a MultiTag (1-D and 2-D position arrays) and tagged / indexed / untagged features and must yield exactly the specified index ranges, or an empty invalid view / out-of-bounds error where the specification says 'none'.",
+        note="Trusted: TLC; grid coordinates (1/4) and tag numbers whose float products are exact, so tolerances never decide; ranks 1 and 2 (every pair of descriptor kinds); negative extents and mixed unit lists left open.",
+        design_ref="6/C08"),
+    "C10": dict(
+        engine="NixMeta",
+        technique="TLA+ spec NixMeta (typed value lists, dictionary view) checked by TLC + replay of every exported transition against Section / Property with reopen",
+        text="NixMeta models a section's properties (dtype fixed at creation, value token lists, optional attributes) and subsections; TLC checks TypeOK, Homogeneous, DictConsistent, RefusedUnchanged, DtypeFixed, ExtendIsConcat, WriteFrame over all histories of create / assign / extend / clear / delete / dictionary-style calls with homogeneous and mixed candidate lists; every transition is replayed with concretisations that pit True/False against 1/0, 1 against 1.0, int64 extremes, NaN, empty and non-ASCII text, list / tuple / ndarray / scalar containers; values, types, attributes and the dictionary interface are read through several long-lived handles and after reopening read-only and read-write.",
+        note="Trusted: TLC; two property names, lists up to 5 values, depth 4; text values are never passed as NumPy arrays; len(section) follows the code (number of properties).",
+        design_ref="6/C10"),
+    "C13": dict(
+        engine="NixModel",
+        technique="TLA+ spec NixModel with breadth-first search observables computed by TLC (SearchSound, SearchMonotone checked) + every search / parent / referring list executed on every reached state, on kept and fresh handles",
+        text="TLC builds every tree of sections and sources over two names (repeated names across subtrees and levels) and every metadata / source link assignment after a scripted prefix, and exports for each reached state the breadth-first result of every search (every root, limits 0..4 and none); the probe runs each search with and without name filters, every parent / parent_source / parent_block and every referring_* list, on handles kept from creation and on fresh handles after reopening.",
+        note="Trusted: TLC; trees up to 5-6 nodes, depth 3; find_*(limit=0) on File/Block follows the code; referring lists compared as sets.",
+        design_ref="6/C13"),
+    "C15": dict(
+        engine="NixArray",
+        technique="TLA+ spec NixArray (calibration polynomial evaluated exactly by TLC) checked by TLC + replay of every exported transition on a real DataArray, all read paths",
+        text="TLC explores set / change / clear sequences of coefficient lists (length 0-5) and origins interleaved with writes and region assignments, checks CalibrationLeavesRaw, and exports the exact calibrated value of every cell; after each step every read path (whole, region, element, read_direct, views, iteration) through two long-lived handles and a fresh one must return those doubles while the stored dataset keeps the raw values, also after reopen.",
+        note="Trusted: TLC; raw values are small integers so the polynomial is exact in double precision; shapes <= (2,2)/(3,); tag read paths are C08's.",
+        design_ref="6/C15"),
     "C02": dict(
         engine="NixModel",
         technique="TLA+ spec NixModel checked by TLC (invariants + action properties) + replay of every exported transition (history prefix, action, full projection, reopen) against nixio",
